@@ -70,6 +70,9 @@ func cborExcluded(f seqx.Field) bool {
 		return len(m) != 6
 	case "IPPrefix":
 		p := f.Val.(net.IPNet)
+		if ones, bits := p.Mask.Size(); ones == 0 && bits == 0 && len(p.Mask) > 0 {
+			return true // non-canonical mask: the statement names canonical prefixes
+		}
 		return len(p.IP) != 4 && len(p.IP) != 16
 	case "Caller", "Timestamp":
 		return f.M == "Caller" // caller paths are equal in both builds but machine dependent; keep it simple
